@@ -5,7 +5,7 @@ WT=$1
 cd $WT || exit 2
 export CARGO_NET_OFFLINE=true
 DEMO=$(python3 -c "import json,re;c=json.load(open('OUT/meta.json'))['demo_cmd'];c=re.sub(r'cd \S+ && ','',c);c=re.sub(r'git apply \S+ && ','',c);print(c)")
-git checkout -- . ; git clean -fdq -e OUT -e target
+git reset -q --hard; git clean -fdq -e OUT -e target
 res() { echo "\"$1\": $2,"; }
 {
 echo "{"
@@ -13,7 +13,7 @@ git apply OUT/demo.diff || echo '"demo_apply_error": true,'
 eval "$DEMO" > OUT/confirm_demo_clean.log 2>&1; res demo_clean_exit $?
 git apply OUT/patch.diff || echo '"patch_apply_error": true,'
 eval "$DEMO" > OUT/confirm_demo_patched.log 2>&1; res demo_patched_exit $?
-git checkout -- . ; git clean -fdq -e OUT -e target
+git reset -q --hard; git clean -fdq -e OUT -e target
 git apply OUT/patch.diff
 cargo test --workspace --offline --lib --no-fail-fast > OUT/confirm_lib.log 2>&1; res lib_exit $?
 cargo test -p marginfi --offline --test tests regression > OUT/confirm_reg.log 2>&1; res reg_exit $?
@@ -23,5 +23,5 @@ F=$(grep -h "^test result" OUT/confirm_lib.log OUT/confirm_reg.log | sed -E 's/.
 echo "\"failed_total\": ${F:-0}"
 echo "}"
 } > OUT/confirm.json
-git checkout -- . ; git clean -fdq -e OUT -e target
+git reset -q --hard; git clean -fdq -e OUT -e target
 cat OUT/confirm.json
